@@ -1369,7 +1369,8 @@ fn run_pipe_stream(ctx: &mut Ctx, stages: u8, buffer: u8, in_cap: u8, threads: u
             let second2 = second.clone();
             let out: (Option<Result<(), ()>>, Option<Vec<It>>) = rt.block_on(async move {
                 let sh = sh2;
-                let p = Pipeline::new(pipe_cfg(buffer as usize, any_hang, false));
+                // max_in_flight 1, 2 or 8: a pipeline that honours the limit must still deliver everything
+                let p = Pipeline::new(PipelineConfig { max_in_flight: [1usize, 2, 8][in_cap as usize % 3], ..pipe_cfg(buffer as usize, any_hang, false) });
                 let mut st: Vec<Box<dyn PipelineStage<It, It>>> = vec![];
                 for s in 0..ns {
                     let f = Arc::new(fsets[s].clone());
